@@ -30,7 +30,16 @@ def main():
             continue
         seen.add(key)
         c.report({"kind": f["kind"], "family": fam, "sig": f["sig"], "what": f["what"] + f" [{f['sig']}]", "text": f["text"], "detail": f["detail"]})
-    c.cov.update({"states": len(cases), "transitions": out["runs"], "traces_validated_against_impl": out["runs"], "exhaustive": True,
+    # design level: the composed machine specs (Lexer, TokenTable, ToInput, Grammar, event::process, SyntaxTree) with the model of the
+    # typed-AST accessors (AstProj.tla) map every reference EXPRESSION case to the abstract expression it was printed from (C05e_Model)
+    gr = run_tlc("gramrefine", "GramRefine", "GramRefine.cfg" if c.quick else "GramRefine_thorough.cfg", workers=8, timeout=6000, xss="1g", xmx="12g",
+                 lib=["grammar", "lexer", "pgrammar", "events"], cache_key="v1", keep_tags=set())
+    if not gr.ok and c.violations:
+        c.notes.append(f"GramRefine also fails: {gr.violated or gr.error_text}")
+    elif not gr.ok:
+        c.tool_error(f"GramRefine: the front-end machine specs do not reproduce the reference expressions: {gr.violated or gr.error_text} {gr.raw_tail[-800:]}")
+    c.cov["design_level"] = {"module": "GramRefine", "invariant": "C05e_Model (expression families: precedence, associativity, unary / postfix / cast / index / call nesting)", "programs": gr.distinct}
+    c.cov.update({"states": len(cases) + gr.distinct, "transitions": out["runs"], "traces_validated_against_impl": out["runs"], "exhaustive": True,
                   "cases": len(cases), "renderings_parsed": out["runs"], "families": counts})
     for i in (11, len(cases) // 3, len(cases) - 9):
         c.sample({"sig": cases[i]["sig"], "tokens": " ".join(cases[i]["toks"])[:160], "skeleton": cases[i]["sk"]})
